@@ -47,6 +47,7 @@ import (
 type Tab struct {
 	Kind string // I identity, T testutils.Table (single), S table.Static (multi), M multi with error switch,
 	// L table.email_localpart, O table.email_localpart_optional (computed, no rows),
+	// W table.email_with_domain: Keys = the domains (inline arguments, in order), no values,
 	// F the real table.file: Lines = the entry lines of the file, in file order (a key may repeat:
 	// its values add up), Style = how the bytes are rendered, Path = where the file is
 	Err   bool
@@ -158,6 +159,18 @@ func (t *Tab) Build() module.Table {
 			panic(err)
 		}
 		return mod.(module.Table)
+	case "W":
+		if t.Err {
+			panic("email_with_domain table cannot fail")
+		}
+		mod, err := table.NewEmailWithDomain("table.email_with_domain", "c15", nil, append([]string{}, t.Keys...))
+		if err != nil {
+			panic(err)
+		}
+		if err := mod.Init(config.NewMap(nil, config.Node{})); err != nil {
+			panic(err)
+		}
+		return mod.(module.Table)
 	}
 	panic("bad table kind " + t.Kind)
 }
@@ -226,6 +239,8 @@ func (t *Tab) ConfigNode(directive string) config.Node {
 		return config.Node{Name: directive, Args: []string{"email_localpart"}}
 	case "O":
 		return config.Node{Name: directive, Args: []string{"email_localpart_optional"}}
+	case "W":
+		return config.Node{Name: directive, Args: append([]string{"email_with_domain"}, t.Keys...)}
 	case "F":
 		if t.Path == "" {
 			panic("vc15: table file without a path")
@@ -651,6 +666,15 @@ func (t *Tab) refValues(k string) (vals []string, found bool) {
 			return []string{k}, true
 		}
 		return nil, false
+	case "W":
+		// docs/reference/table/email_with_domain.md: "The module ... appends one or more domains to the
+		// specified value": the WHOLE key is the local part of every value (written so that it is one:
+		// RefQuoteLocal), whatever the key looks like — an account named by an address of another realm
+		// gets "bob@example.net"@example.org, never bob@example.org
+		for _, d := range t.Keys {
+			vals = append(vals, RefQuoteLocal(k)+"@"+d)
+		}
+		return vals, len(vals) > 0
 	case "F":
 		// every line of the file that starts with the key contributes its values
 		for _, l := range t.Lines {
@@ -662,6 +686,25 @@ func (t *Tab) refValues(k string) (vals []string, found bool) {
 	}
 	v, ok := t.Rows[k]
 	return v, ok && len(v) > 0
+}
+
+// RefQuoteLocal: a string written as the local part of an address (RFC 5321 4.1.2 / RFC 5322 3.4.1):
+// as it is when it needs no quoting, otherwise a quoted string with a backslash before `"` and `\`.
+// A string needs quoting when it holds a space or one of the RFC 5322 specials other than the dot.
+func RefQuoteLocal(s string) string {
+	if !strings.ContainsAny(s, "()<>[]:;@\\,\" ") {
+		return s
+	}
+	var b strings.Builder
+	b.WriteByte('"')
+	for _, ch := range s {
+		if ch == '"' || ch == '\\' {
+			b.WriteByte('\\')
+		}
+		b.WriteRune(ch)
+	}
+	b.WriteByte('"')
+	return b.String()
 }
 
 type Addr struct{ Local, Domain string }
@@ -692,6 +735,12 @@ type Case struct {
 	HasZ    bool
 	Authzid string
 	ZForm   string
+	// SMTP sessions only (op-line group `| K <stage> <verdict> <first>`): a second check runs in the same check
+	// group as authorize_sender; at KStage (conn / sender / rcpt / body / all = at every stage) it answers KVerdict (q quarantine, r reject,
+	// i a reason without an action, - nothing) and the two checks finish that stage in the order KFirst
+	// (n the neighbour first, a authorize_sender first, - unordered)
+	HasK                     bool
+	KStage, KVerdict, KFirst string
 
 	// which reading of the table.chain documentation the reference takes (see chainRef)
 	reading int
@@ -826,6 +875,9 @@ func SessionOpLine(cs *Case) string {
 		}
 		fmt.Fprintf(&b, " | Z %s %s", vh.HexRunes(cs.Authzid), form)
 	}
+	if cs.HasK {
+		fmt.Fprintf(&b, " | K %s %s %s", cs.KStage, cs.KVerdict, cs.KFirst)
+	}
 	b.WriteString(replayTail(cs))
 	return b.String()
 }
@@ -917,6 +969,11 @@ func ParseOp(op string) (*Case, string, error) {
 				return nil, "", fmt.Errorf("bad Z group")
 			}
 			cs.HasZ, cs.Authzid, cs.ZForm = true, vh.UnhexRunes(t[1]), t[2]
+		case "K":
+			if len(t) != 4 {
+				return nil, "", fmt.Errorf("bad K group")
+			}
+			cs.HasK, cs.KStage, cs.KVerdict, cs.KFirst = true, t[1], t[2], t[3]
 		case "p", "u":
 			var vs []string
 			for _, x := range t[2:] {
@@ -3139,6 +3196,201 @@ func Fixed() []*Case {
 		mk("alice", "ALICE@EXAMPLE.ORG", st, rest, nil, nil),
 		mk("", "alice@example.org", ident, "From: <alice@example.org>\r\n"+rest, [][]Addr{{alice}}, nil),
 	}...)
+}
+
+// ---------------------------------------------------------------- a neighbour check in the same check group
+
+// FixedNeighbour: authorize_sender runs next to a second check (a reputation / content filter) that gives its
+// verdict at the same stage; the two finish in either order.  Whatever the neighbour says and however fast it is,
+// a client that is not entitled to the envelope sender / the author address must be refused.
+func FixedNeighbour() []*Case {
+	var grid []*Case
+	alice, bob := Addr{"alice", "example.org"}, Addr{"bob", "example.com"}
+	for _, stage := range []string{"sender", "body", "all"} {
+		for _, verdict := range []string{"q", "i", "r", "-"} {
+			for _, first := range []string{"n", "a"} {
+				for k := 0; k < 4; k++ {
+					var cs *Case
+					switch k {
+					case 0: // forged envelope sender and author
+						cs = wdCase("alice@example.org", "auto", Tab{Kind: "I"}, bob, bob)
+					case 1: // own envelope sender, forged author
+						cs = wdCase("alice@example.org", "auto", Tab{Kind: "I"}, alice, bob)
+					case 2: // forged envelope sender, own author
+						cs = wdCase("alice@example.org", "auto", Tab{Kind: "I"}, bob, alice)
+					default: // all own
+						cs = wdCase("alice@example.org", "auto", Tab{Kind: "I"}, alice, alice)
+					}
+					cs.HasK, cs.KStage, cs.KVerdict, cs.KFirst = true, stage, verdict, first
+					grid = append(grid, cs)
+				}
+			}
+		}
+	}
+	return grid
+}
+
+// GenNeighbour draws the neighbour of a generated session.
+func GenNeighbour(r *vh.Rng, cs *Case) {
+	cs.HasK = true
+	cs.KStage = r.Pick("sender", "sender", "sender", "body", "body", "body", "all", "all", "all", "conn", "rcpt")
+	cs.KVerdict = r.Pick("q", "q", "q", "q", "i", "i", "r", "-")
+	cs.KFirst = r.Pick("n", "n", "n", "a", "a", "-")
+}
+
+// ---------------------------------------------------------------- table.email_with_domain as entitlement table
+
+// The documented configuration `user_to_email email_with_domain DOMAIN…` (directly or as the last
+// step of a chain) on a server where account names are of mixed kinds: plain names, names that are
+// addresses of another realm / provider (bob@example.net, bob@mail.example.org), names with
+// characters that need quoting.  Every account is given <its WHOLE name>@DOMAIN; an account whose name
+// is an address shares nothing with the account named by that address's local part.
+
+func wdCase(user, authNorm string, u2e Tab, mailFrom Addr, from Addr) *Case {
+	rest := "To: someone@example.net\r\nSubject: hello\r\n"
+	cs := &Case{CheckHeader: true, UA: "r", NA: "r", EA: "r", AuthNorm: authNorm, FromNorm: "auto", Conn: true,
+		User: user, MailFrom: mailFrom.String(), U2E: u2e, Raw: []byte("From: <" + from.String() + ">\r\n" + rest), GTKnown: true,
+		GTFrom: [][]Addr{{from}}}
+	cs.Prep.Kind = "I"
+	return cs
+}
+
+func wdTab(domains ...string) Tab {
+	t := Tab{Kind: "W"}
+	for _, d := range domains {
+		t.Add(d)
+	}
+	return t
+}
+
+// wdChain: accounts table (login name -> mailbox names) in front of email_with_domain.
+func wdChain(first Tab, optional bool, domains ...string) Tab {
+	return Tab{Kind: "C", Steps: []ChainStep{{Optional: optional, Tab: first}, {Tab: wdTab(domains...)}}}
+}
+
+func FixedWithDomain() []*Case {
+	var grid []*Case
+	var accounts Tab
+	accounts.Kind = "S"
+	for _, u := range []string{"bob", "bob@example.net", "bob@mail.example.org", "alice@example.org"} {
+		accounts.Add(u, u)
+	}
+	for _, user := range []string{"bob", "bob@example.net", "Bob@EXAMPLE.net", "bob@mail.example.org", "alice@example.org"} {
+		for _, a := range []Addr{{"bob", "example.org"}, {"bob", "example.com"}, {"alice", "example.org"}} {
+			for k, t := range []Tab{wdTab("example.org", "example.com"), wdTab("example.org"), wdChain(accounts, false, "example.org", "example.com")} {
+				an := "auto"
+				if k == 1 {
+					an = "precis_casefold_email"
+				}
+				grid = append(grid, wdCase(user, an, t, a, a))
+			}
+		}
+	}
+	return grid
+}
+
+// FixedWithDomainQuoted (in-package harness only): the address the table gives an account whose name needs quoting.
+func FixedWithDomainQuoted() []*Case {
+	var grid []*Case
+	for _, user := range []string{"bob@example.net", "bob smith", "bob", "ops,night"} {
+		for _, fn := range []string{"noop", "auto"} {
+			for _, d := range []string{"example.org", "example.com", "example.net"} {
+				cs := wdCase(user, "auto", wdTab("example.org", "example.com"), Addr{"bob", "example.org"}, Addr{"bob", "example.org"})
+				cs.MailFrom, cs.FromNorm = RefQuoteLocal(user)+"@"+d, fn
+				grid = append(grid, cs)
+			}
+		}
+	}
+	return grid
+}
+
+func GenWithDomainCase(r *vh.Rng, smtpSafe bool) *Case {
+	names := []string{"bob", "alice", "carol", "j.doe", "ext", "rené"}
+	realms := []string{"example.net", "mail.example.org", "example.org", "corp.example.net", "EXAMPLE.net"}
+	domPool := []string{"example.org", "example.com", "corp.example.net", "xn--mnchen-3ya.de"}
+	name := r.Pick(names...)
+	user := name
+	switch x := r.Intn(100); {
+	case x < 55:
+		user = name + "@" + r.Pick(realms...)
+		if r.Chance(20) {
+			user = upper(user[:1]) + user[1:]
+		}
+	case x < 90:
+	default:
+		user = name + r.Pick(" smith", ",ops", ":1", "(home)", ";x", "<x>")
+	}
+	nd := 1 + r.Intn(3)
+	var doms []string
+	for off, i := r.Intn(len(domPool)), 0; i < nd; i++ {
+		doms = append(doms, domPool[(off+i)%len(domPool)])
+	}
+	var t Tab
+	switch x := r.Intn(100); {
+	case x < 55:
+		t = wdTab(doms...)
+	case x < 85:
+		// accounts table first: the login name's mailbox names (the name itself, sometimes a second one)
+		var acc Tab
+		acc.Kind = r.Pick("S", "S", "M", "T")
+		row := []string{user}
+		if lu, err := authz.NormalizeFuncs["auto"](user); err == nil {
+			row[0] = lu
+		}
+		if acc.Kind != "T" && r.Chance(40) {
+			row = append(row, r.Pick(names...)+"@"+r.Pick(realms...))
+		}
+		acc.Add(row[0], row...)
+		acc.Add(r.Pick(names...), r.Pick(names...))
+		t = wdChain(acc, r.Chance(30), doms...)
+	case x < 93:
+		// the documented chain: the local part of the login name gets the domains (entitles the collision)
+		t = wdChain(Tab{Kind: r.Pick("O", "L")}, false, doms...)
+	default:
+		t = wdChain(Tab{Kind: "I"}, r.Bool(), doms...)
+	}
+	pickAddr := func() Addr {
+		d := r.Pick(doms...)
+		if r.Chance(12) {
+			d = r.Pick(domPool...)
+		}
+		switch x := r.Intn(100); {
+		case x < 50:
+			return Addr{name, d} // the local part of the login name (the whole name when it is plain)
+		case x < 65:
+			if l, rd, ok := SplitLast(user); ok {
+				return Addr{l, rd}
+			}
+			return Addr{name, d}
+		case x < 80:
+			return Addr{r.Pick(names...), d}
+		case x < 90:
+			return Addr{upper(name), d}
+		default:
+			return randAddr(r)
+		}
+	}
+	mf := pickAddr()
+	from := mf
+	if r.Chance(35) {
+		from = pickAddr()
+	}
+	cs := wdCase(user, r.Pick("auto", "auto", "precis_casefold_email", "precis_email", "noop", "casefold"), t, mf, from)
+	cs.FromNorm = r.Pick("auto", "auto", "precis_casefold_email", "noop")
+	if !smtpSafe && r.Chance(14) {
+		// the address the documentation gives the account: the WHOLE (normalised) login name as local part, quoted
+		// when it has to be (MAIL FROM only; the author stays what it was)
+		if nu, err := authz.NormalizeFuncs[cs.AuthNorm](user); err == nil {
+			cs.MailFrom = RefQuoteLocal(nu) + "@" + r.Pick(doms...)
+			if r.Chance(70) {
+				cs.FromNorm = "noop"
+			}
+		}
+	}
+	if r.Chance(15) {
+		cs.UA, cs.NA, cs.EA = r.Pick("r", "q"), r.Pick("r", "q"), r.Pick("r", "q", "i")
+	}
+	return cs
 }
 
 // ---------------------------------------------------------------- histories of an entitlement file
